@@ -292,6 +292,91 @@ func runC09(c *Ctx) {
 	if nStores < 5 {
 		R.Fatal("only %d stores to identifying header fields found (the decoder alone has more)", nStores)
 	}
+	// ---- stored sub-package parts are the Body slices of delivered messages: nobody may write into them
+	{
+		R.Rules["E4.stored-parts"] = "the part table of a sub-packaged transfer keeps the Body slices of messages that were handed to callbacks (no copy); therefore no code may write bytes in place into a slice taken from that table (clear, copy, element store, Read)"
+		kept := ""
+		for _, fn := range c.RepoFuncs("service") {
+			for _, b := range fn.Blocks {
+				for _, ins := range b.Instrs {
+					st, ok := ins.(*ssa.Store)
+					if !ok {
+						continue
+					}
+					ia, isIA := st.Addr.(*ssa.IndexAddr)
+					if !isIA {
+						continue
+					}
+					toTable := false
+					for _, o := range c.origins(ia.X, nil, nil) {
+						if o.Kind == "field" && strings.HasSuffix(o.Name, ".subcontractingRecord") {
+							toTable = true
+						}
+					}
+					if !toTable {
+						continue
+					}
+					for _, o := range c.origins(st.Val, nil, nil) {
+						if o.Kind == "field" && strings.HasSuffix(o.Name, ".Body") {
+							kept = c.P.RelPos(st.Pos())
+						}
+					}
+				}
+			}
+		}
+		if kept == "" {
+			R.Add("E4.stored-parts", "premise: the part table stores message bodies without copying", "", report.Discharged, "not the case on this tree (parts are copied or not kept): nothing to protect")
+		} else {
+			R.Add("E4.stored-parts", "premise: the part table stores message bodies without copying", kept, report.Discharged, "")
+			n := 0
+			for _, fn := range c.RepoFuncs("service") {
+				for _, b := range fn.Blocks {
+					for _, ins := range b.Instrs {
+						var target ssa.Value
+						what := ""
+						switch x := ins.(type) {
+						case *ssa.Call:
+							if bi, isB := x.Call.Value.(*ssa.Builtin); isB {
+								switch bi.Name() {
+								case "clear":
+									if _, isSl := x.Call.Args[0].Type().Underlying().(*types.Slice); isSl {
+										target, what = x.Call.Args[0], "clear"
+									}
+								case "copy":
+									target, what = x.Call.Args[0], "copy into"
+								}
+							} else if nm, _ := callMethodName(x); nm == "Read" && len(x.Call.Args) > 0 {
+								target, what = x.Call.Args[len(x.Call.Args)-1], "Read into"
+							}
+						case *ssa.Store:
+							if ia, isIA := x.Addr.(*ssa.IndexAddr); isIA {
+								target, what = ia.X, "element store into"
+							}
+						}
+						if target == nil {
+							continue
+						}
+						sl, isSl := target.Type().Underlying().(*types.Slice)
+						if !isSl {
+							continue
+						}
+						if bt, isB := sl.Elem().Underlying().(*types.Basic); !isB || bt.Kind() != types.Uint8 {
+							continue // only writes of bytes
+						}
+						n++
+						for _, o := range c.origins(target, nil, nil) {
+							if o.Kind == "field" && strings.HasSuffix(o.Name, ".subcontractingRecord") {
+								R.Add("E4.stored-parts", fmt.Sprintf("%s / %s", shortFn(fn), c.constructOf(fn, ins)), c.P.RelPos(ins.Pos()), report.Violated,
+									fmt.Sprintf("%s a slice taken from the part table (%s): these are the Body slices of messages already delivered to callbacks (stored uncopied at %s), so the content of delivered messages changes", what, o.String(), kept))
+							}
+						}
+					}
+				}
+			}
+			R.Add("E4.stored-parts", fmt.Sprintf("no in-place byte write reaches the part table (%d in-place writes of byte slices examined)", n), "", report.Discharged, "")
+			R.Notes["in_place_byte_writes_examined"] = n
+		}
+	}
 	R.Require("E4.alias", 4, "")
 	R.Explain = "May-alias analysis on top of the abstract interpreter's buffer identities: every message the reader role creates (fast path, buffered path, re-request frames, reassembled messages) is checked at creation: its raw bytes, body and BCD phone must not share a backing array " +
 		"(through sub-slicing, bytes.Trim, append's possible in-place growth, joins and loop generalisation) with the Read buffer or with a pending buffer that is truncated and refilled. Plus: no use of a message after it is sent to the writer; identifying header fields are stored only by the decoder. " +
